@@ -20,6 +20,7 @@ Oracle : (A) decode_simple_value returns one of the documented types or raises
              (type str); if it adds quotes, it used a quote character absent from s.
 """
 import datetime as dtm
+from decimal import Decimal
 import itertools
 import re
 
@@ -37,7 +38,12 @@ _GD = {}
 def grammar_decoder(pair):
     """One grammar/decoder pair per worker process (they are stateless, C16)."""
     if pair not in _GD:
-        _GD[pair] = _grammar_decoder(pair)
+        if pair.endswith("+Decimal"):
+            # the same dialect with a caller-supplied real-number class: which class
+            # a text belongs to must not depend on it
+            _GD[pair] = _grammar_decoder(pair[:-8], real_cls=Decimal)
+        else:
+            _GD[pair] = _grammar_decoder(pair)
     return _GD[pair]
 
 ID = "C17"
@@ -60,6 +66,7 @@ ASSUMPTIONS = [
 ]
 
 PAIRS = ("PVL", "ODL", "PDS3", "ISIS", "default")
+DECIMAL_PAIRS = ("PVL+Decimal", "ODL+Decimal", "default+Decimal")
 DEC_RE = re.compile(r"[+-]?([0-9]+\.?[0-9]*|\.[0-9]+)([eE][+-]?[0-9]+)?\Z")
 INT_RE = re.compile(r"[+-]?[0-9]+\Z")
 DIG = "0123456789abcdef"
@@ -170,7 +177,7 @@ def decoder_class(dec, s):
         return ("keyword", v)
     if isinstance(v, int):
         return ("based" if "#" in s else "decimal", v)
-    if isinstance(v, float):
+    if isinstance(v, (float, Decimal)):
         return ("decimal", v)
     if isinstance(v, (dtm.date, dtm.time)):
         return ("datetime", v)
@@ -188,6 +195,7 @@ def check_pair(pair, s):
     if len(s) >= 2 and s[0] in "\"'" and s[-1] == s[0] and s[0] in s[1:-1]:
         return "skip"
     g, dec = grammar_decoder(pair)
+    base = pair.split("+")[0]
     try:
         cls, val = decoder_class(dec, s)
     except Exception as e:
@@ -201,11 +209,11 @@ def check_pair(pair, s):
         ref = "keyword"
     elif len(s) >= 2 and s[0] in "\"'" and s[-1] == s[0]:
         ref = "quoted"
-    elif ref_based(s, pair):
+    elif ref_based(s, base):
         ref = "based"
     elif DEC_RE.match(s):
         ref = "decimal"
-    elif ref_strict_temporal(s, pair):
+    elif ref_strict_temporal(s, base):
         ref = "datetime"
     if ref is not None and cls != ref:
         return (f"C17/{pair}/class/{ref}-read-as-{cls}",
@@ -306,7 +314,7 @@ def plain_word(s):
 def run_string(acc, s):
     if s == "":
         return              # the empty text is never a token
-    for pair in PAIRS:
+    for pair in PAIRS + (DECIMAL_PAIRS if len(s) != 4 else ()):
         r = check_pair(pair, s)
         if r == "skip":
             acc.event("skipped-inner-quote")
